@@ -62,7 +62,7 @@ Definition stray {A} (src : bytes) (tok : option token) (r : res A) : M A :=
    (own frames, empty program) that shares the heap and stdout. Result: the root cell. *)
 Definition eval_selector (n : nat) (sel : bytes) (doc : jvalue) : M addr := fun s0 =>
   match parse_expression_src sel with
-  | PErr pos => (Err (syntax_error sel pos), s0)
+  | PErr pos => raise_err (syntax_error sel pos) s0
   | PFuel => (Fuel, s0)
   | PPanic => (Panic, s0)
   | POk e _ =>
@@ -168,7 +168,7 @@ Section Run.
       log_io (map io_of evs) ;;;
       match r with
       | SEof => ret tt
-      | SErr => fail (Err (mkErr EJson 0 0 name))
+      | SErr => raise_err (mkErr EJson 0 0 name)
       | SUnsupported => fail Unsupp
       | SValue doc => process_value name doc ;;; decode_loop k' name d'
       end
